@@ -499,6 +499,10 @@ def run(ctx):
     ctx.model_must_hold(res, "ModelGeom.TP")
     conv = [c for c in res.cases if c.get("kind") in ("conv1", "conv2")]
     tlc.cleanup(res)
+    # TLC's workers emit in arbitrary order: replay in a fixed order
+    lin.sort(key=lambda c: (c["mk"], c["dg"]["n"], c["dg"]["kind"], c["dg"]["k"], c["dg"]["proj"], c["rg"]["kind"], c["rg"]["k"],
+                            c["rg"]["proj"], c["fi"]))
+    conv.sort(key=lambda c: (c["kind"], c["psf_id"], c["bc"]))
     if not lin or not conv:
         raise MachineryError("no cases emitted by ModelGeom (lin=%d, conv=%d)" % (len(lin), len(conv)))
     # where the coded composition fun2par.F*.par2fun cannot be the transpose (listed by TLC on the model)
